@@ -207,6 +207,25 @@ def gen_history(rnd, profile):
         # close to (local) midnight
         off_ms = TZ_CHOICES[h.tz] * 1000
         h.start_ms = ((h.start_ms + off_ms) // DAY_MS) * DAY_MS + DAY_MS - rnd.randint(1, 3000) - off_ms
+    if rnd.random() < profile.get("marathon_p", 0.0):
+        # more rotations under one date than any everyday run sees: the index crosses 9->10, 99->100 and 999->1000 while retention keeps
+        # the directory small, with coarse time stamps so that neighbours tie; a restart somewhere on the way
+        h.L = rnd.choice([1, 2, 7])
+        h.N = rnd.choice([2, 3, 4, 5, 12])
+        h.gran_ns = rnd.choice([1000000, 1000000000, 2000000000])
+        h.real = False
+        h.start_ms = (h.start_ms // DAY_MS) * DAY_MS + 3600000
+        h.tz = "UTC"
+        n = rnd.choice([101, 130, 1003, 1030, 1100])
+        restart_at = rnd.randint(1, n)
+        for rid in range(1, n + 1):
+            h.ops.append(("W", rid, record_text(rid, "m" * max(1, h.L)), 0))
+            if rid == restart_at:
+                h.ops.append(("RESTART",))
+            elif rnd.random() < 0.02:
+                h.ops.append(("ADV", rnd.choice([1, 999, 1000, 2500])))
+        h.tags.add("marathon")
+        return h
     n_ops = rnd.randint(*profile.get("n_ops", (5, 60)))
     rid = 0
     curN = h.N
